@@ -32,6 +32,14 @@ Proof.
   destruct l as [|a t]; [destruct m; reflexivity|]. cbn [skipn plus nth_error]. apply IH.
 Qed.
 
+Lemma skipn_skipn' {A} (l : list A) n m : skipn n (skipn m l) = skipn (n + m) l.
+Proof.
+  revert l. induction m as [|m IH]; intros l.
+  - rewrite Nat.add_0_r. reflexivity.
+  - destruct l as [|a t]; [rewrite !skipn_nil; reflexivity|].
+    rewrite Nat.add_succ_r. cbn [skipn]. apply IH.
+Qed.
+
 Record tghost := mkTg {
   tg_C  : list N;   (* every item ever committed *)
   tg_S  : list N;   (* pushed, uncommitted *)
@@ -465,7 +473,7 @@ Section TxStep.
       f_equal.
       + (* committed part *)
         set (add := if cm then firstn (length (if rb then [] else S1) - N.to_nat cut) (if rb then [] else S1) else []).
-        rewrite skipn_skipn.
+        rewrite skipn_skipn'.
         assert (Hdrop : ((if pcm then if prb then 0 else if ov then S (N.to_nat (G - GC)) else N.to_nat (G - GC) else 0)
                           + N.to_nat GC)%nat = N.to_nat GC').
         { unfold GC', G2, G1. destruct pcm, prb, ov; lia. }
